@@ -192,7 +192,7 @@ package stdlib
 //@   ghost label UUID
 //@   pure
 //@   nopanic
-//@   ensures result == newuuid(ncalls(UUID)) [ASSUMED]
+//@   ensures result == newuuid(ncalls(UUID)) && result != "" [ASSUMED]
 
 //@ assume-contract errors.Join
 //@   pure
